@@ -88,17 +88,30 @@ type opnd struct {
 func snap(s encoding.Sequence) opnd { return opnd{s, append([]byte(nil), backing(s)...)} }
 func (o opnd) untouched() bool       { return bytes.Equal(o.copy, backing(o.s)) }
 
+type tsPoint struct {
+	ts time.Time
+	p  gen.Point
+}
+
 // genSeq builds a sequence through real UpdateValue calls.
 func genSeq(r *hk.Rng, n *gen.Node, e expr.Expr, res time.Duration, maxUpdates int, spread int) encoding.Sequence {
+	s, _ := genSeqPts(r, n, e, res, maxUpdates, spread)
+	return s
+}
+
+// genSeqPts also returns the updates it applied (for the raw-accumulation oracle).
+func genSeqPts(r *hk.Rng, n *gen.Node, e expr.Expr, res time.Duration, maxUpdates int, spread int) (encoding.Sequence, []tsPoint) {
 	var s encoding.Sequence
+	var pts []tsPoint
 	k := r.Range(0, maxUpdates)
 	anchor := base.Add(time.Duration(r.Range(-spread, spread)) * res)
 	for i := 0; i < k; i++ {
 		ts := anchor.Add(time.Duration(r.Range(-spread, 2)) * res)
 		p := gen.GenPoint(r, fields)
 		s = s.UpdateValue(ts, p.Params(), p.Meta(), e, res, time.Time{})
+		pts = append(pts, tsPoint{ts, p})
 	}
-	return s
+	return s, pts
 }
 
 func valTol(n *gen.Node) float64 {
@@ -453,9 +466,25 @@ func caseUpdate(ctx *hk.RunCtx, r *hk.Rng, idx uint64, n *gen.Node, e expr.Expr,
 }
 
 func caseMerge(ctx *hk.RunCtx, r *hk.Rng, idx uint64, n *gen.Node, e expr.Expr, ej map[string]interface{}, resn time.Duration) error {
-	a := genSeq(r, n, e, resn, 6, 6)
-	b := genSeq(r, n, e, resn, 6, 6)
+	a, ptsA := genSeqPts(r, n, e, resn, 6, 6)
+	b, ptsB := genSeqPts(r, n, e, resn, 6, 6)
 	tb := pickTB(r, resn)
+	// C05 oracle (implementation only): merging the two stored series = the series obtained by
+	// accumulating all their points into one (every period, no truncation)
+	{
+		var all encoding.Sequence
+		for _, tp := range append(append([]tsPoint{}, ptsA...), ptsB...) {
+			all = all.UpdateValue(tp.ts, tp.p.Params(), tp.p.Meta(), e, resn, time.Time{})
+		}
+		var merged encoding.Sequence
+		if pn := hk.Recover(func() { merged = a.Merge(b, e, resn, time.Time{}) }); pn == nil {
+			if canon(liveView(n, e, merged, resn, time.Time{})) != canon(liveView(n, e, all, resn, time.Time{})) {
+				ctx.Res.Disagree(hk.Disagreement{Kind: "property", Case: map[string]interface{}{"e": ej, "res": fmt.Sprint(int64(resn)),
+					"a": decodeSeq(n, e, a), "b": decodeSeq(n, e, b)}, Impl: decodeSeq(n, e, merged), Model: decodeSeq(n, e, all),
+					Detail: "Sequence.Merge of two series differs from accumulating all their points into one series", PropertyFails: true, Index: idx})
+			}
+		}
+	}
 	req := map[string]interface{}{"engine": "seq", "op": "merge", "e": ej, "res": fmt.Sprint(int64(resn)),
 		"a": decodeSeq(n, e, a), "b": decodeSeq(n, e, b), "tb": tstr(tb)}
 	ctx.Res.Count(req, len(a) > 0 && len(b) > 0 && e.EncodedWidth() > 0)
